@@ -27,18 +27,19 @@ impl PhoneticMethod {
     /// Creates a new `PhoneticMethod` struct.
     pub(crate) fn new(config: &Config) -> Self {
         // Load candidate selections file.
-        let selections = if let Ok(file) = std::fs::read(config.get_user_phonetic_selection_data())
-        {
-            serde_json::from_slice(&file).unwrap()
-        } else {
-            HashMap::with_hasher(RandomState::new())
-        };
+        // A file which can't be parsed (e.g. truncated by an interrupted save) is treated as absent.
+        let selections = std::fs::read(config.get_user_phonetic_selection_data())
+            .ok()
+            .and_then(|file| serde_json::from_slice(&file).ok())
+            .unwrap_or_else(|| HashMap::with_hasher(RandomState::new()));
 
         // Load user's auto correct file.
         let (modified, autocorrect) = {
             if let Ok(mut file) = File::open(config.get_user_phonetic_autocorrect()) {
                 let modified = file.metadata().unwrap().modified().unwrap();
-                let autocorrect = serde_json::from_slice(&read(&mut file)).unwrap();
+                // An unparsable file is treated as an empty one.
+                let autocorrect = serde_json::from_slice(&read(&mut file))
+                    .unwrap_or_else(|_| HashMap::with_hasher(RandomState::new()));
                 (modified, autocorrect)
             } else {
                 (
@@ -130,11 +131,13 @@ impl Method for PhoneticMethod {
                     .to_string(),
                 suggestion,
             );
+            // The selection is kept in memory even if it can't be saved
+            // (e.g. the user data directory doesn't exist or isn't writable).
             write(
                 config.get_user_phonetic_selection_data(),
                 serde_json::to_string(&self.selections).unwrap(),
             )
-            .unwrap();
+            .ok();
         }
 
         // Reset to defaults
@@ -146,8 +149,8 @@ impl Method for PhoneticMethod {
             let modified = file.metadata().unwrap().modified().unwrap();
             // Update the auto correct entries if only the file was modified in the meantime.
             if modified > self.modified {
-                self.suggestion.user_autocorrect =
-                    serde_json::from_slice(&read(&mut file)).unwrap();
+                self.suggestion.user_autocorrect = serde_json::from_slice(&read(&mut file))
+                    .unwrap_or_else(|_| HashMap::with_hasher(RandomState::new()));
                 self.modified = modified;
             }
         }
